@@ -576,6 +576,49 @@ class GeoOracle
         return true;
     }
 
+    //! Number of universe levels (along the chain of `loc`) in which the point X lies within
+    //! `tol` of some surface: >= 2 means X sits on a surface that is shared between levels
+    //! (a daughter surface coincident with a parent surface).
+    int levels_touching_surface(std::array<double, 3> const& X, OLocation const& loc, double tol) const
+    {
+        int count = 0;
+        P3 pos = {X[0], X[1], X[2]};
+        for (size_t l = 0; l < loc.levels.size(); ++l)
+        {
+            OUniverse const& u = univ_[loc.levels[l].universe];
+            bool touch = false;
+            if (u.is_array)
+            {
+                for (int a = 0; a < 3; ++a)
+                    for (double gv : u.grid[a])
+                        touch |= std::fabs(pos[a] - gv) < tol;
+            }
+            else
+            {
+                for (auto const& sf : u.surfaces)
+                {
+                    LD f, h2;
+                    P3 g;
+                    eval_surface(sf, pos, &f, &g, &h2);
+                    LD gn = std::sqrt(g[0] * g[0] + g[1] * g[1] + g[2] * g[2]);
+                    if (gn > 0 && std::fabs(f) / gn < tol)
+                        touch = true;
+                }
+            }
+            count += touch;
+            ODaughter const* dau = nullptr;
+            int lv = loc.levels[l].local_volume;
+            if (u.is_array)
+                dau = &u.daughters.at(lv);
+            else if (u.volumes[lv].daughter >= 0)
+                dau = &u.daughters[u.volumes[lv].daughter];
+            if (!dau)
+                break;
+            pos = dau->down(pos);
+        }
+        return count;
+    }
+
     //! Transform a global direction down to the frame of level `lev` of a location
     P3 dir_at_level(OLocation const& loc, std::array<double, 3> const& gdir, size_t lev) const
     {
